@@ -44,7 +44,7 @@ CLASSES = {"TaskPool": TaskPool, "SimpleTaskPool": SimpleTaskPool,
            "PlusPool": control_classes.PlusPool, "SimplePlus": control_classes.SimplePlus,
            # witness classes of known findings (never part of a sweep)
            "HelpParamPool": control_classes.HelpParamPool, "UnderscoreParamPool": control_classes.UnderscoreParamPool,
-           "CommandParamPool": control_classes.CommandParamPool}
+           "CommandParamPool": control_classes.CommandParamPool, "AliasPool": control_classes.AliasPool}
 WIDTHS = [-5, 0, 1, 20, 80, 10 ** 6]
 SPINS = 60
 
@@ -201,18 +201,34 @@ def word_bits(tok):
     return i, f + lit + d
 
 
+def _strict_utf8(s):
+    try:
+        s.encode("utf-8")
+        return True
+    except UnicodeEncodeError:
+        return False
+
+
 def lex(tok):
+    """one blank-separated string of a command line -> the model's structured token:
+    `w:<text>:<int or ->:<float,literal,dotted bits>` word, `s:<c>` short flag, `l:<name>` long option string (exact or
+    abbreviated), `e:<name>:<value>:<int or ->:<bits>` `--name=value` (argparse splits at the FIRST `=`; the value is
+    lexed as a word is — it may be empty, start with `-`, contain `=`), `o` everything else (`--`, `-c=v`, `-ab`, "")"""
     if tok == "":
         return "o"
     if not tok.startswith("-") or tok == "-" or NEGATIVE.match(tok):
         i, bits = word_bits(tok)
         return f"w:{hx(tok)}:{i}:{bits}"
+    if tok.startswith("--"):
+        if tok == "--" or not _strict_utf8(tok):
+            return "o"
+        if "=" in tok:
+            name, _, value = tok[2:].partition("=")
+            i, bits = word_bits(value)
+            return f"e:{hx(name)}:{hx(value)}:{i}:{bits}"
+        return f"l:{hx(tok[2:])}"
     if "=" in tok:
         return "o"
-    if tok.startswith("--"):
-        if tok == "--":
-            return "o"
-        return f"l:{hx(tok[2:])}"
     if len(tok) == 2:
         return f"s:{hx(tok[1])}"
     return "o"
@@ -304,7 +320,9 @@ def _split_vals(s):
     return [parse_val(x) for x in out]
 
 
-ERR_PATTERNS = [("unknown-command", re.compile(r"invalid choice")),
+ERR_PATTERNS = [("ambiguous", re.compile(r"^ambiguous option: ")),
+                ("explicit-arg", re.compile(r"^argument \S+: ignored explicit argument ")),
+                ("unknown-command", re.compile(r"invalid choice")),
                 ("bad-value", re.compile(r"invalid \S+ value|occurred in parser trying to convert")),
                 ("needs-value", re.compile(r"expected one argument")),
                 ("missing", re.compile(r"the following arguments are required")),
